@@ -92,3 +92,27 @@ register(
         "preempt_inside_task",
     ],
 )
+
+register(
+    "C17",
+    quick=4000,
+    thorough=150000,
+    level="exploration",
+    rule=(
+        "one run = one IntervalRegressor scenario (n in 1..12, alpha with alpha*n away from half-integers, "
+        "n_estimators 1..8, recording base regressor, optional distinct weights, n_jobs None/2/3 under a drawn "
+        "schedule); the entropy seam answers every numpy.random request made by the library -- adversarially in "
+        "3/4 of the runs (both ends of the requested range forced into every resample), from the pinned global "
+        "RNG otherwise -- and logs what was asked; oracles: requested support = all n rows and size = "
+        "round(alpha*n), every fitted model's record is rows of the table with their own target and weight, "
+        "rows 0 and n-1 drawn when the seam returned both extremes, predict = mean / predict_sorted = sorted rows "
+        "of predict_all; non-trivial = the seam was consulted; distinct = distinct (n, alpha, n_estimators, base, "
+        "weights, n_jobs, entropy mode, schedule digest)"
+    ),
+    assumptions=[
+        "resampling is observed at the numpy.random seam of mlinsights.mlmodel.interval_regressor (randint / choice requests); an implementation drawing indices by other means is judged by the record-level oracle only",
+        "base regressors are recording peers (LinearRegression, DummyRegressor, DecisionTreeRegressor subclasses, TagRegressor)",
+        "training rows, targets and weights are pairwise distinct so that a record identifies the rows it was drawn from",
+    ],
+    probes=["n_equals_1", "draw_at_range_maximum", "draw_at_range_minimum", "two_resample_tasks_interleaved", "preempt_inside_task"],
+)
